@@ -202,6 +202,21 @@ def _celtypes_post(module, state):
         module.TimestampType.TZ_ALIASES = cont.SDict(module.TimestampType.TZ_ALIASES)
     module.re = regex.ReModuleShim()
     _wrap_patterns(module.__dict__)
+    if "pendulum" in module.__dict__ and isinstance(module.__dict__["pendulum"], types.ModuleType):
+        module.pendulum = _PinningCallables(module.__dict__["pendulum"], {"parse", "from_format", "timezone", "duration"})
+
+
+class _PinningCallables:
+    """a foreign pure-Python package whose functions end in C code (pendulum.parse -> re): symbolic arguments are pinned"""
+
+    def __init__(self, real, names):
+        self.__dict__["_real"], self.__dict__["_names"] = real, names
+
+    def __getattr__(self, n):
+        v = getattr(self._real, n)
+        if n in self._names and callable(v):
+            return _pinning_builtin(v, f"{self._real.__name__}.{n}")
+        return v
 
 
 def _evaluation_post(module, state):
